@@ -163,6 +163,9 @@ package sftp
 //@   modifies bytes, mapof c.inflight, ghost.idFresh, ghost.consumeOK, ghost.consumeSid
 //@   channel global:type:sftp.result invariant m.err == nil ==> len(m.data) >= 4
 //@   ensures err == nil ==> len(data) >= 4
+//@   assert after select#1: ret0 == 0 || (ret0 == 1 && arg1 == ch)
+// (the wait ends only through the caller's own context or the caller's own result channel: a reply that has been
+//  received completely is returned even if the connection is lost right after it)
 
 //@ func (context.Context).Err
 //@   trusted
@@ -1384,6 +1387,14 @@ package sftp
 //@   update after call unmarshalUint32Safe#1: ghost.consumeSid = ret0
 //@   ensures result != nil
 
+//@ func newClientPipe$2
+//@   property C04
+//@   requires c != nil && ccOK(&c.clientConn)
+//@   update before call (*clientConn).recv#1: ghost.lostAnnounced = false
+//@   update after call (*clientConn).broadcastErr#1: ghost.lostAnnounced = true
+//@   ensures ghost.lostAnnounced
+// (recv never returns nil; whatever it returns, io.EOF at a packet boundary included, is announced to every waiter)
+
 //@ func (*clientConn).putChannel
 //@   property C20, C03, C04
 //@   requires c != nil && c.inflight != nil && ch != nil
@@ -1394,6 +1405,8 @@ package sftp
 //@   assert before mapupdate#1: locked(&c.Mutex)
 
 //@ ghost var consumeOK bool
+//@ ghost var routed chan<- result
+//@ ghost var lostAnnounced bool
 //@ ghost var consumeSid uint32
 // (permission to take a registration out of the routing table: granted by the arrival of a reply that carries
 //  that id (recv) or by the failure to send the request (dispatchRequest), and used up by getChannel. Nothing
@@ -1420,6 +1433,10 @@ package sftp
 //@   update before call (*clientConn).putChannel#1: ghost.idFresh = false
 //@   update after call (*conn).sendPacket#1: ghost.consumeOK = ret != nil
 //@   update after call (*conn).sendPacket#1: ghost.consumeSid = sid
+//@   update after call (*clientConn).getChannel#1: ghost.routed = ret0
+//@   assert before send ch#1: arg0 == ghost.routed && m_err_nonnil(arg1)
+// (a send error is delivered on the channel that is registered for the id at that moment -- broadcastErr may have
+//  replaced the caller's own channel after notifying it -- so every waiting caller is notified exactly once)
 //@   modifies bytes, mapof c.inflight, ghost.idFresh, ghost.consumeOK, ghost.consumeSid
 
 //@ ghost var bSent int
